@@ -1,3 +1,4 @@
+#![allow(deprecated)]
 //! The mini-chain of PROTOCOL.md section 2: world state, querier, executor.
 //!
 //! The six real contracts of /repo are executed through their real `instantiate` / `execute` /
@@ -561,6 +562,217 @@ impl World {
         let e = self.pending.entry(("hub".to_string(), val, denom)).or_insert(0);
         *e = e.checked_add(amt).ok_or("pending overflow")?;
         Ok(())
+    }
+}
+
+// ---------------------------------------------------------------------------------------------
+// State injection (PROTOCOL.md section 3.4): direct writes through the contracts' own public
+// storage items / functions and into the mini-chain's bank / staking tables
+// ---------------------------------------------------------------------------------------------
+
+fn dec_atomics(x: u128) -> Decimal {
+    Decimal::new(Uint128::new(x))
+}
+
+impl World {
+    fn need(&self, idx: usize) -> Result<(), String> {
+        if self.inst[idx] {
+            Ok(())
+        } else {
+            Err(format!("{} not instantiated", ADDRS[idx]))
+        }
+    }
+
+    #[allow(clippy::too_many_arguments)]
+    pub fn poke_hub_state(
+        &mut self,
+        ber: u128,
+        ser: u128,
+        bb: u128,
+        bst: u128,
+        lim: u64,
+        phb: u128,
+        lut: u64,
+        lpb: u64,
+    ) -> Result<(), String> {
+        self.need(HUB)?;
+        let st = basset::hub::State {
+            bsei_exchange_rate: dec_atomics(ber),
+            stsei_exchange_rate: dec_atomics(ser),
+            total_bond_bsei_amount: Uint128::new(bb),
+            total_bond_stsei_amount: Uint128::new(bst),
+            last_index_modification: lim,
+            prev_hub_balance: Uint128::new(phb),
+            last_unbonded_time: lut,
+            last_processed_batch: lpb,
+        };
+        let mut storage = StoreRef::new(self, HUB);
+        basset_sei_hub::state::STATE.save(&mut storage, &st).map_err(|e| e.to_string())
+    }
+
+    pub fn poke_batch(&mut self, id: u64, reqb: u128, reqst: u128) -> Result<(), String> {
+        self.need(HUB)?;
+        let cb = basset::hub::CurrentBatch {
+            id,
+            requested_bsei_with_fee: Uint128::new(reqb),
+            requested_stsei: Uint128::new(reqst),
+        };
+        let mut storage = StoreRef::new(self, HUB);
+        basset_sei_hub::state::CURRENT_BATCH.save(&mut storage, &cb).map_err(|e| e.to_string())
+    }
+
+    #[allow(clippy::too_many_arguments)]
+    pub fn poke_hist(
+        &mut self,
+        id: u64,
+        time: u64,
+        bamt: u128,
+        bapplied: u128,
+        bwithdraw: u128,
+        samt: u128,
+        sapplied: u128,
+        swithdraw: u128,
+        released: bool,
+    ) -> Result<(), String> {
+        self.need(HUB)?;
+        let h = basset::hub::UnbondHistory {
+            batch_id: id,
+            time,
+            bsei_amount: Uint128::new(bamt),
+            bsei_applied_exchange_rate: dec_atomics(bapplied),
+            bsei_withdraw_rate: dec_atomics(bwithdraw),
+            stsei_amount: Uint128::new(samt),
+            stsei_applied_exchange_rate: dec_atomics(sapplied),
+            stsei_withdraw_rate: dec_atomics(swithdraw),
+            released,
+        };
+        let mut storage = StoreRef::new(self, HUB);
+        basset_sei_hub::state::store_unbond_history(&mut storage, id, h).map_err(|e| e.to_string())
+    }
+
+    /// the v2 wait-list bucket exactly as `store_unbond_wait_list` lays it out
+    pub fn poke_wait(&mut self, addr: &str, batch: u64, b: u128, st: u128) -> Result<(), String> {
+        self.need(HUB)?;
+        let mut storage = StoreRef::new(self, HUB);
+        let addr_key = cosmwasm_std::to_json_vec(&addr.to_string()).map_err(|e| e.to_string())?;
+        let batch_key = cosmwasm_std::to_json_vec(&batch).map_err(|e| e.to_string())?;
+        let mut bucket: cosmwasm_storage::Bucket<basset::hub::UnbondWaitEntity> =
+            cosmwasm_storage::Bucket::multilevel(
+                &mut storage,
+                &[basset_sei_hub::state::NEW_PREFIX_WAIT_MAP, &addr_key],
+            );
+        if b == 0 && st == 0 {
+            bucket.remove(&batch_key);
+            Ok(())
+        } else {
+            bucket
+                .save(
+                    &batch_key,
+                    &basset::hub::UnbondWaitEntity {
+                        bsei_amount: Uint128::new(b),
+                        stsei_amount: Uint128::new(st),
+                    },
+                )
+                .map_err(|e| e.to_string())
+        }
+    }
+
+    /// set a cw20 balance; total_supply moves by the same delta
+    pub fn poke_tokbal(&mut self, tok_idx: usize, addr: &str, amt: u128) -> Result<(), String> {
+        self.need(tok_idx)?;
+        let mut storage = StoreRef::new(self, tok_idx);
+        let new_supply = |supply: u128, old: u128| -> Result<u128, String> {
+            supply
+                .checked_add(amt)
+                .and_then(|x| x.checked_sub(old))
+                .ok_or_else(|| "supply out of range".to_string())
+        };
+        if tok_idx == BSEI {
+            use cw20_legacy::state::{BALANCES, TOKEN_INFO};
+            let key = api().addr_canonicalize(addr).map_err(|e| e.to_string())?;
+            let old = BALANCES
+                .may_load(&storage, key.as_slice())
+                .map_err(|e| e.to_string())?
+                .unwrap_or_default()
+                .u128();
+            let mut info = TOKEN_INFO.load(&storage).map_err(|e| e.to_string())?;
+            info.total_supply = Uint128::new(new_supply(info.total_supply.u128(), old)?);
+            BALANCES
+                .save(&mut storage, key.as_slice(), &Uint128::new(amt))
+                .map_err(|e| e.to_string())?;
+            TOKEN_INFO.save(&mut storage, &info).map_err(|e| e.to_string())
+        } else {
+            use cw20_base::state::{BALANCES, TOKEN_INFO};
+            let key = Addr::unchecked(addr);
+            let old = BALANCES
+                .may_load(&storage, &key)
+                .map_err(|e| e.to_string())?
+                .unwrap_or_default()
+                .u128();
+            let mut info = TOKEN_INFO.load(&storage).map_err(|e| e.to_string())?;
+            info.total_supply = Uint128::new(new_supply(info.total_supply.u128(), old)?);
+            BALANCES.save(&mut storage, &key, &Uint128::new(amt)).map_err(|e| e.to_string())?;
+            TOKEN_INFO.save(&mut storage, &info).map_err(|e| e.to_string())
+        }
+    }
+
+    /// set a reward holder; total_balance moves by the balance delta
+    pub fn poke_holder(&mut self, addr: &str, bal: u128, index: u128, pending: u128) -> Result<(), String> {
+        self.need(REWARD)?;
+        use basset_sei_reward::state::{read_holder, read_state, store_holder, store_state, Holder};
+        let mut storage = StoreRef::new(self, REWARD);
+        let key = api().addr_canonicalize(addr).map_err(|e| e.to_string())?;
+        let old = read_holder(&storage, &key).map_err(|e| e.to_string())?.balance.u128();
+        let mut st = read_state(&storage).map_err(|e| e.to_string())?;
+        let total = st
+            .total_balance
+            .u128()
+            .checked_add(bal)
+            .and_then(|x| x.checked_sub(old))
+            .ok_or_else(|| "total balance out of range".to_string())?;
+        st.total_balance = Uint128::new(total);
+        store_holder(
+            &mut storage,
+            &key,
+            &Holder {
+                balance: Uint128::new(bal),
+                index: dec_atomics(index),
+                pending_rewards: dec_atomics(pending),
+            },
+        )
+        .map_err(|e| e.to_string())?;
+        store_state(&mut storage, &st).map_err(|e| e.to_string())
+    }
+
+    pub fn poke_rwstate(&mut self, gi: u128, total: u128, prev: u128) -> Result<(), String> {
+        self.need(REWARD)?;
+        let mut storage = StoreRef::new(self, REWARD);
+        basset_sei_reward::state::store_state(
+            &mut storage,
+            &basset_sei_reward::state::State {
+                global_index: dec_atomics(gi),
+                total_balance: Uint128::new(total),
+                prev_reward_balance: Uint128::new(prev),
+            },
+        )
+        .map_err(|e| e.to_string())
+    }
+
+    pub fn poke_del(&mut self, addr: &str, val: usize, amt: u128) {
+        self.delegations.insert((addr.to_string(), val), amt);
+    }
+
+    pub fn poke_unb(&mut self, addr: &str, val: usize, amt: u128, completion: u64) {
+        self.unbonding.push(Unbonding {
+            delegator: addr.to_string(),
+            validator: val,
+            amount: amt,
+            completion: completion as u128,
+        });
+    }
+
+    pub fn poke_pend(&mut self, addr: &str, val: usize, denom: usize, amt: u128) {
+        self.pending.insert((addr.to_string(), val, denom), amt);
     }
 }
 
